@@ -34,6 +34,10 @@ fn err_class(e: &str) -> String {
             // the table name is a generated one (set_xxxx)
             return format!("{}Unknown table <name>", &inner[..p]);
         }
+        if let Some(p) = inner.find("InvalidRelation") {
+            // the message names generated columns
+            return format!("{}InvalidRelation: <column> is unknown or ambiguous", &inner[..p]);
+        }
         if let Some(p) = inner.find("InvalidExpression") {
             return format!("{}InvalidExpression: <column> is invalid", &inner[..p]);
         }
